@@ -227,6 +227,11 @@ def _main_check(ctx: Ctx) -> None:
 
     def is_member_test(t):
         return member_polarity(t) is True
+    # every routing rule below reads "the track belongs to a group" off the code: when no test of the track loop says that in a form
+    # known here (`any(i in g for g in groups)`, `next((g for g in groups if i in g), None) is not None`, a local holding either), the
+    # function is outside the model -- not a finding
+    n_member_tests = sum(1 for x in ast.walk(track_loop) if isinstance(x, ast.expr) and member_polarity(x) is not None)
+    ctx.floor(f"{FN}: tests of `the track belongs to a group` in a recognised form", n_member_tests, 1, now=True)
 
     # notes only under group membership: with "the track belongs to a group" decided either way, a note of a grouped track is added
     # exactly once to the track's own sequence and a note of any other track is not added anywhere
